@@ -73,7 +73,7 @@ func items(tier string) []item {
 					continue
 				}
 				d := 2
-				if thorough && (cb == 15 || cb == 0) && h != "sleep10" {
+				if thorough {
 					d = 3
 				}
 				add(d, mk(fmt.Sprintf("B/shutdown@%d", at), cb, h, "shutdown", at, s1))
@@ -83,7 +83,11 @@ func items(tier string) []item {
 	// B2: a client that stays connected (idle) while shutdown comes early
 	for _, cb := range []int{15, 0} {
 		for at := 0; at <= 2; at++ {
-			add(2, mk(fmt.Sprintf("B2/idle-shutdown@%d", at), cb, "instant", "shutdown", at, []string{"dial", "send", "recv"}))
+			d := 2
+			if thorough {
+				d = 3
+			}
+			add(d, mk(fmt.Sprintf("B2/idle-shutdown@%d", at), cb, "instant", "shutdown", at, []string{"dial", "send", "recv"}))
 		}
 	}
 	// C: the other controller actions
@@ -91,14 +95,18 @@ func items(tier string) []item {
 		if cb == 0 && !thorough {
 			continue
 		}
-		for at := 0; at <= 3; at++ {
-			add(2, mk(fmt.Sprintf("C/cancel@%d", at), cb, "instant", "cancel", at, s1))
+		dc := 2
+		if thorough {
+			dc = 3
 		}
-		add(2, mk("C/shutdown-on-serve", cb|srvx.CbServe, "instant", "shutdown-on-serve", 0, s1))
-		add(2, mk("C/shutdown-before-serve", cb, "instant", "shutdown-before-serve", 0, s1))
-		add(2, mk("C/shutdown-cancelled@2", cb, "sleep120", "shutdown-cancelled", 2, s1))
-		add(2, mk("C/shutdown-cancelled@3", cb, "instant", "shutdown-cancelled", 3, s1))
-		add(2, mk("C/shutdown+cancel@2", cb, "sleep10", "shutdown+cancel", 2, s1))
+		for at := 0; at <= 3; at++ {
+			add(dc, mk(fmt.Sprintf("C/cancel@%d", at), cb, "instant", "cancel", at, s1))
+		}
+		add(dc, mk("C/shutdown-on-serve", cb|srvx.CbServe, "instant", "shutdown-on-serve", 0, s1))
+		add(dc, mk("C/shutdown-before-serve", cb, "instant", "shutdown-before-serve", 0, s1))
+		add(dc, mk("C/shutdown-cancelled@2", cb, "sleep120", "shutdown-cancelled", 2, s1))
+		add(dc, mk("C/shutdown-cancelled@3", cb, "instant", "shutdown-cancelled", 3, s1))
+		add(dc, mk("C/shutdown+cancel@2", cb, "sleep10", "shutdown+cancel", 2, s1))
 	}
 	// H: Shutdown called twice / from two goroutines; a client that tries to connect after the shutdown
 	for _, cb := range []int{15, 0} {
